@@ -68,6 +68,20 @@ def run(ctx):
         if fnd.rule == 'C10.7':
             fnd.rule = 'C03.9'
     _relabel(ctx, ('C10.7',), 'C03.9')
+    # the data section is complete, in order and on disk before the footer is appended and the patches are made:
+    # the ordering facts of the writer pipeline (rules C16.1-C16.7), reported here as C03.10
+    from . import c16
+    n0 = len(ctx.findings)
+    before_rules = set(ctx.rule_counts)
+    c16.run(ctx)
+    for fnd in ctx.findings[n0:]:
+        if fnd.rule.startswith('C16.'):
+            fnd.rule = 'C03.10'
+    _relabel(ctx, tuple(r for r in list(ctx.rule_counts) if r.startswith('C16.')), 'C03.10')
+    for r in [r for r in ctx.rule_docs if r.startswith('C16.')]:
+        ctx.rule_docs.pop(r, None)
+    ctx.rule_docs['C03.10'] = 'writer pipeline: every block written once, in order, before footer / patches (rules of C16)'
+    ctx.floors = [(('C03.10' if r.startswith('C16.') else r), n_, w) for (r, n_, w) in getattr(ctx, 'floors', [])]
     ctx.rule('C03.8', 'version-dependent fields are decoded under their version gate; a re-stamped copy converts them')
     if version_gated_fields(ctx, ht, 'C03.8') < 2:
         raise AnalysisError('decodes of the sample-interval field (28:32): fewer than the 2 confirmed sites')
